@@ -265,3 +265,30 @@ Theorem C39_restart_in_flight_overlaps_witness :
         [EStart None; EFire; ERun KAsync; EStop; EStart None; EDone]))) = 2%nat.
 Proof. exact restart_in_flight_overlaps_witness. Qed.
 Print Assumptions C39_restart_in_flight_overlaps_witness.
+
+(* ---------------------------------------------------------------------- *)
+(* F. (phase 4) The binary64 _update_next against exact arithmetic, via Flocq.
+      FR x is the real value of the float x (Flocq's B2R of Prim2B), ffin x says x is
+      finite.  For times in [0, 2^31] s and a period in [2^-20, 2^20] s, when the
+      deadline has been reached (next <= now) the float computation raises no
+      exception, returns a finite d, and there is an integer K >= 1 with
+        |d - (next + K*p)| <= 2^-19   (8 ulp at 2^31: d is on the float-period grid),
+        now - 2^-18 < d <= now + p + 2^-18   (after the clock, at most one period ahead).
+      This theorem (and only this one) depends on the axioms of Coq's Reals and of
+      Floats.FloatAxioms / Uint63 (the specification of the primitive operations);
+      they are listed in ALLOWED_AXIOMS of harness/props/c39.py and in NOTES.md. *)
+From Coq Require Import Reals.
+From Flocq Require Import Core.
+From TV Require Import C39.ProofsP4a C39.ProofsP4b C39.ProofsP4c.
+Theorem C39_float_update_next_within_8ulp_of_exact :
+  forall next now p : Coq.Floats.PrimFloat.float,
+    ffin next -> ffin now -> ffin p ->
+    (0 <= FR next)%R -> (FR next <= FR now)%R -> (FR now <= bpow radix2 31)%R ->
+    (bpow radix2 (-20) <= FR p)%R -> (FR p <= bpow radix2 20)%R ->
+    exists (d : Coq.Floats.PrimFloat.float) (K : Z),
+      update_next_float p now next = UOk d /\ ffin d /\ (1 <= K)%Z
+      /\ (Rabs (FR d - (FR next + IZR K * FR p)) <= bpow radix2 (-19))%R
+      /\ (FR now - bpow radix2 (-18) < FR d)%R
+      /\ (FR d <= FR now + FR p + bpow radix2 (-18))%R.
+Proof. exact update_next_float_main_accuracy. Qed.
+Print Assumptions C39_float_update_next_within_8ulp_of_exact.
